@@ -45,6 +45,7 @@ impl Bench {
             manual,
             keep_tx: true,
             last_cancel_forced: false,
+            held: Vec::new(),
         }));
         Bench { sh }
     }
